@@ -33,6 +33,15 @@ def describe(o):
     return s
 
 
+def far(x, y, tol):
+    """NaN-safe: True unless |x - y| <= tol (a NaN anywhere counts as a difference)"""
+    return not (abs(x - y) <= tol)
+
+
+def finite(*xs):
+    return all(x == x and abs(x) != float("inf") for x in xs)
+
+
 def oracle(ctx, obs):
     """the property's clauses on Rust outputs"""
     pts = [o for o in obs if o["kind"] == "pt"]
@@ -43,6 +52,22 @@ def oracle(ctx, obs):
             ctx.count("skip:" + o["why"].split(":")[0][:40])
         elif o["kind"] in ("pt_panic", "rates_panic"):
             ctx.violation("S5", "the library panicked while evaluating a setup or its exchanged twin", {"kind": "panic"}, o)
+    # scale of each setup's spectrum: the largest |jsa| / jsi among its sampled pairs (the first pair is the centre of the spectrum).
+    # The property's "1e-6 relative" is relative to this scale: far out in the wings (|jsa| ~ 1e-8 of the peak) the 49-term Simpson sum
+    # cancels to that level and the LOCAL relative rounding error of either twin is itself ~1e-6.
+    # To the sampled values is added the amplitude the spectrum has at perfect phase matching, sqrt(norm) * 1/2 Int |integrand| dz
+    # (pump envelope 1): the three sampled pairs may all lie in the wings.
+    peak, peak_i = {}, {}
+    for o in pts:
+        vals = [abs(cx(o["v"]["jsa"])), abs(cx(o["v_sw"]["jsa"]))]
+        for v in (o["v"], o["v_sw"]):
+            nrm, fa = f64_of_hex(v["norm"]), f64_of_hex(v["fiber_abs"])
+            if nrm >= 0 and fa == fa:
+                vals.append(nrm ** 0.5 * fa)
+                peak_i[o["id"]] = max(peak_i.get(o["id"], 0.0), nrm * fa * fa)
+        peak[o["id"]] = max([peak.get(o["id"], 0.0)] + [v for v in vals if v == v])
+        ivals = [f64_of_hex(o["v"]["jsi"]), f64_of_hex(o["v_sw"]["jsi"])]
+        peak_i[o["id"]] = max([peak_i.get(o["id"], 0.0)] + [v for v in ivals if v == v])
     tie_bad = 0
     for o in pts:
         key = ("pt", o["id"], o["k"], o["p"]["omega_s"], o["p"]["omega_i"])
@@ -64,32 +89,42 @@ def oracle(ctx, obs):
         if not pol_ok or o["p_sw"]["pm_type"] != inv.get(o["p"]["pm_type"], o["p"]["pm_type"]):
             ctx.violation("S4", "exchanged setup: beam polarizations / phase-matching type are not those of the exchanged experiment",
                           {"kind": "exchange_pm_type"}, {"setup": describe(o), "p": o["p"], "p_sw": o["p_sw"]}, found_input=False)
-        # clause: jsa equal in magnitude and phase to 1e-6 relative
-        scale = max(abs(a), abs(b))
-        if scale > 0 and abs(a - b) > TOL * scale:
+        # clause: jsa equal in magnitude and phase to 1e-6 (of the spectrum's scale)
+        scale = peak[o["id"]]
+        if not finite(a.real, a.imag, b.real, b.imag):
+            ctx.violation("S5", f"JointSpectrum::jsa is not finite: {a!r} / exchanged {b!r}", {"kind": "jsa_nonfinite"},
+                          {"setup": describe(o), "jsa": [a.real, a.imag], "jsa_exchanged": [b.real, b.imag]})
+        elif scale > 0 and far(a, b, TOL * scale):
             ctx.violation("S5", f"JointSpectrum::jsa(ws, wi) = {a!r} but the exchanged setup gives jsa(wi, ws) = {b!r} "
-                          f"(relative difference {abs(a - b) / scale:.3e} > 1e-6)",
+                          f"(difference {abs(a - b) / scale:.3e} of the spectrum's peak amplitude {scale:.3e} > 1e-6)",
                           {"kind": "jsa_exchange", "crystal": st["crystal"], "pm_type": st["pm_type"]},
-                          {"setup": describe(o), "jsa": [a.real, a.imag], "jsa_exchanged": [b.real, b.imag],
+                          {"setup": describe(o), "jsa": [a.real, a.imag], "jsa_exchanged": [b.real, b.imag], "peak_abs_jsa": scale,
                            "call": "spdc.joint_spectrum(Integrator::default()).jsa(ws, wi) vs "
                                    "spdc.with_swapped_signal_idler().joint_spectrum(..).jsa(wi, ws)"})
         ja, jb = f64_of_hex(o["v"]["jsi"]), f64_of_hex(o["v_sw"]["jsi"])
-        if max(ja, jb) > 0 and abs(ja - jb) > TOL * max(ja, jb):
-            ctx.violation("S5", f"JointSpectrum::jsi(ws, wi) = {ja!r} but the exchanged setup gives jsi(wi, ws) = {jb!r}",
-                          {"kind": "jsi_exchange", "crystal": st["crystal"], "pm_type": st["pm_type"]},
+        si_scale = peak_i[o["id"]]
+        if not finite(ja, jb):
+            ctx.violation("S5", f"JointSpectrum::jsi is not finite: {ja!r} / exchanged {jb!r}", {"kind": "jsi_nonfinite"},
                           {"setup": describe(o), "jsi": ja, "jsi_exchanged": jb})
+        elif si_scale > 0 and far(ja, jb, 2 * TOL * si_scale):
+            ctx.violation("S5", f"JointSpectrum::jsi(ws, wi) = {ja!r} but the exchanged setup gives jsi(wi, ws) = {jb!r} "
+                          f"(difference {abs(ja - jb) / si_scale:.3e} of the peak intensity)",
+                          {"kind": "jsi_exchange", "crystal": st["crystal"], "pm_type": st["pm_type"]},
+                          {"setup": describe(o), "jsi": ja, "jsi_exchanged": jb, "peak_jsi": si_scale})
         # consistency of the Rust outputs with the composition the generated model states: jsa = sqrt(norm) * alpha * fiber
         n, al, fib = f64_of_hex(o["v"]["norm"]), f64_of_hex(o["v"]["alpha"]), cx(o["v"]["fiber"])
         raw = cx(o["v"]["jsa_raw"])
         if abs(raw) > 0:
             want = (n ** 0.5) * (al * fib)
-            if abs(want - a) > 1e-12 * abs(a):
+            if far(want, a, 1e-12 * abs(a)):
                 ctx.violation("S4", "JointSpectrum::jsa is not sqrt(jsi_normalization) * pump_spectral_amplitude * phasematch_fiber_coupling",
                               {"kind": "jsa_composition"}, {"setup": describe(o), "jsa": [a.real, a.imag], "recomposed": [want.real, want.imag]},
                               found_input=False)
+    nrates = 0
     for o in obs:
         if o["kind"] != "rates":
             continue
+        nrates += 1
         r = o["r"]
         g = lambda k: f64_of_hex(r[k])
         st = o["setup"]
@@ -102,70 +137,65 @@ def oracle(ctx, obs):
                           found_input=False)
             continue
         tr = lambda xs: [xs[k] for k in perm]
-        # JSI on the grid vs the exchanged setup's JSI on the transposed grid
+        # JSI on the grid vs the exchanged setup's JSI on the transposed grid (tolerance relative to the grid's peak intensity)
         jsi = [f64_of_hex(x) for x in r["jsi"]]
         jsw = tr([f64_of_hex(x) for x in r["jsi_sw_t"]])
-        m = max(jsi + [0.0])
-        if any(abs(x - y) > TOL * max(x, y) and max(x, y) > 1e-9 * m for x, y in zip(jsi, jsw)):
+        m = max([x for x in jsi + jsw if x == x] + [0.0])
+        if not finite(*jsi, *jsw) or any(far(x, y, 2 * TOL * m) for x, y in zip(jsi, jsw)):
             ctx.violation("S5", "jsi_range of a setup differs from jsi_range of the exchanged setup on the transposed grid",
                           {"kind": "jsi_grid_exchange"}, {"setup": st, "jsi": jsi, "jsi_exchanged_transposed": jsw})
-        # idler singles spectrum = exchanged setup's signal singles spectrum (transposed grid)
+        # idler singles spectrum = exchanged setup's signal singles spectrum on the transposed grid (this is how the code defines it: both
+        # sides evaluate the exchanged setup's jsi_singles; the check pins the argument order / grid transposition)
         ji = [f64_of_hex(x) for x in r["jsi_idler"]]
         js = tr([f64_of_hex(x) for x in r["sw_signal_t"]])
-        m = max(ji + [0.0])
-        if any(abs(x - y) > TOL * max(x, y) and max(x, y) > 1e-9 * m for x, y in zip(ji, js)):
+        m = max([x for x in ji + js if x == x] + [0.0])
+        if not finite(*ji, *js) or any(far(x, y, 2 * TOL * m) for x, y in zip(ji, js)):
             ctx.violation("S5", "jsi_singles_idler_range differs from the exchanged setup's jsi_singles_range on the transposed grid",
                           {"kind": "singles_idler_spectrum"}, {"setup": st, "idler": ji, "exchanged_signal_transposed": js})
+        # cell widths computed here from the grid's end points and point counts (NOT from Steps2D::division_widths)
+        rs, ri = r["res"]
+        dws, dwi = (g("xe") - g("xs")) / (rs - 1), (g("ye") - g("ys")) / (ri - 1)
+        ctx.count("grid:%s cells %s" % ("x".join(map(str, r["res"])), "equal" if abs(dws - dwi) <= 1e-9 * abs(dws) else "unequal"))
+        if far(g("dws"), dws, 1e-12 * abs(dws)) or far(g("dwi"), dwi, 1e-12 * abs(dwi)):
+            ctx.violation("S4", f"Steps2D::division_widths() = ({g('dws')!r}, {g('dwi')!r}) but the grid's cell widths are ({dws!r}, {dwi!r})",
+                          {"kind": "division_widths"}, {"setup": st, "res": r["res"], "returned": [g("dws"), g("dwi")], "expected": [dws, dwi]},
+                          found_input=False)
         # rates with the (known-asymmetric) correction factor divided out: the clause the theorems prove — correction-free rate of the
         # setup = correction-free rate of the exchanged setup on the transposed grid (cells dws x dwi vs dwi x dws)
-        ctx.count("grid:%s cells %s" % ("x".join(map(str, r["res"])), "equal" if r["dws"] == r["dwi"] else "unequal"))
         for qa, qb, what in (("cc", "cc_sw", "counts_coincidences"), ("si", "ss_sw", "counts_singles_idler vs exchanged counts_singles_signal"),
                              ("ss", "si_sw", "counts_singles_signal vs exchanged counts_singles_idler")):
-            # idler singles use the UNexchanged setup's correction factor (src/spdc/counts.rs), signal singles / coincidences their own
-            ca = g("corr")
-            cb = g("corr_sw")
-            va, vb = g(qa) / ca, g(qb) / cb
-            if abs(va - vb) > TOL * max(abs(va), abs(vb)):
+            va, vb = g(qa) / g("corr"), g(qb) / g("corr_sw")
+            if far(va, vb, TOL * max(abs(va), abs(vb))):
                 ctx.violation("S5", f"{what}: with get_counts_correction divided out the rate of a setup ({va!r}) differs from that of the exchanged "
-                              f"setup on the transposed grid ({vb!r}); grid {r['res']}, cell widths {g('dws'):.6g} x {g('dwi'):.6g} rad/s",
+                              f"setup on the transposed grid ({vb!r}); grid {r['res']}, cell widths {dws:.6g} x {dwi:.6g} rad/s",
                               {"kind": "rate_exchange_modulo_correction", "quantity": qa},
                               {"setup": st, "rate_over_correction": va, "exchanged_rate_over_correction": vb, "res": r["res"],
-                               "dws": g("dws"), "dwi": g("dwi")})
+                               "dws": dws, "dwi": dwi})
         # the rate is the Riemann sum: correction x sum(jsi) x dws x dwi
-        riemann = g("corr") * sum(jsi) * g("dws") * g("dwi")
-        if abs(riemann - g("cc")) > 1e-9 * abs(g("cc")):
-            ctx.violation("S4", "counts_coincidences is not get_counts_correction x sum(jsi) x dws x dwi over the grid",
+        riemann = g("corr") * sum(jsi) * dws * dwi
+        if far(riemann, g("cc"), 1e-9 * abs(g("cc"))):
+            ctx.violation("S4", f"counts_coincidences = {g('cc')!r} Hz is not get_counts_correction x sum(jsi) x dws x dwi = {riemann!r} Hz over a "
+                          f"{rs} x {ri} grid with cell widths {dws:.6g} x {dwi:.6g} rad/s",
                           {"kind": "counts_composition"}, {"setup": st, "counts_coincidences": g("cc"), "recomputed": riemann,
-                                                           "dws": g("dws"), "dwi": g("dwi")}, found_input=False)
-        # rates
-        cc, ccs = g("cc"), g("cc_sw")
-        ratio_corr = g("corr_sw") / g("corr") if g("corr") else float("nan")
-        if abs(cc - ccs) > TOL * max(abs(cc), abs(ccs)):
-            expl = abs(ccs / cc - ratio_corr) < 1e-9 if cc else False
-            ctx.violation("S5", f"counts_coincidences is not invariant under the signal/idler exchange: {cc!r} Hz vs {ccs!r} Hz for the exchanged "
-                          f"setup on the transposed grid (ratio {ccs / cc:.6f}"
-                          + (f" = ratio of get_counts_correction, which uses the signal's group index only" if expl else "") + ")",
-                          {"kind": "rate_exchange", "quantity": "counts_coincidences", "explained_by_counts_correction": expl},
-                          {"setup": st, "counts_coincidences": cc, "exchanged": ccs, "get_counts_correction": g("corr"),
-                           "get_counts_correction_exchanged": g("corr_sw"), "explained_by_correction_factor": expl,
-                           "call": "spdc.counts_coincidences(range, Integrator::default()) vs "
-                                   "spdc.with_swapped_signal_idler().counts_coincidences(transposed range, ..)"})
-        si, sss = g("si"), g("ss_sw")
-        if abs(si - sss) > TOL * max(abs(si), abs(sss)):
-            expl = abs(sss / si - ratio_corr) < 1e-9 if si else False
-            ctx.violation("S5", f"counts_singles_idler of a setup ({si!r} Hz) is not counts_singles_signal of the exchanged setup ({sss!r} Hz; ratio "
-                          f"{sss / si:.6f}" + (" = ratio of get_counts_correction" if expl else "") + ")",
-                          {"kind": "rate_exchange", "quantity": "counts_singles_idler", "explained_by_counts_correction": expl},
-                          {"setup": st, "counts_singles_idler": si, "exchanged_counts_singles_signal": sss,
-                           "explained_by_correction_factor": expl})
-        ss, sis = g("ss"), g("si_sw")
-        if abs(ss - sis) > TOL * max(abs(ss), abs(sis)):
-            expl = abs(sis / ss - ratio_corr) < 1e-9 if ss else False
-            ctx.violation("S5", f"counts_singles_signal of a setup ({ss!r} Hz) is not counts_singles_idler of the exchanged setup ({sis!r} Hz; ratio "
-                          f"{sis / ss:.6f}" + (" = ratio of get_counts_correction" if expl else "") + ")",
-                          {"kind": "rate_exchange", "quantity": "counts_singles_signal", "explained_by_counts_correction": expl},
-                          {"setup": st, "counts_singles_signal": ss, "exchanged_counts_singles_idler": sis,
-                           "explained_by_correction_factor": expl})
+                                                           "dws": dws, "dwi": dwi, "res": r["res"]}, found_input=False)
+        # rates themselves: invariant iff the correction factor is; the EXPECTED ratio of the known finding F14 is ng_i / ng_s, computed
+        # from the group indices dumped through public accessors (not from get_counts_correction)
+        r_ng = g("ng_i") / g("ng_s")
+        for qa, qb, quantity, what in (
+                ("cc", "cc_sw", "counts_coincidences", "counts_coincidences is not invariant under the signal/idler exchange"),
+                ("si", "ss_sw", "counts_singles_idler", "counts_singles_idler of a setup is not counts_singles_signal of the exchanged setup"),
+                ("ss", "si_sw", "counts_singles_signal", "counts_singles_signal of a setup is not counts_singles_idler of the exchanged setup")):
+            va, vb = g(qa), g(qb)
+            if far(va, vb, TOL * max(abs(va), abs(vb))):
+                ratio = vb / va if va else float("nan")
+                expl = bool(abs(ratio - r_ng) <= TOL)
+                ctx.violation("S5", f"{what}: {va!r} Hz vs {vb!r} Hz on the transposed grid (ratio {ratio:.6f}; ng_i/ng_s = {r_ng:.6f}"
+                              + ("; the ratio is the group-index ratio: get_counts_correction uses the signal's group index only" if expl else "") + ")",
+                              {"kind": "rate_exchange", "quantity": quantity, "ratio_is_group_index_ratio": expl},
+                              {"setup": st, qa: va, qb + "_exchanged": vb, "ratio": ratio, "ng_s": g("ng_s"), "ng_i": g("ng_i"),
+                               "get_counts_correction": g("corr"), "get_counts_correction_exchanged": g("corr_sw"),
+                               "call": "spdc.counts_*(range, Integrator::default()) vs spdc.with_swapped_signal_idler().counts_*(transposed range, ..)"})
+    ctx.n_pts, ctx.n_rates = len(pts), nrates
     return pts
 
 
@@ -234,6 +264,10 @@ def run(ctx):
     n, nrates = (14, 3) if quick else (80, 12)
     obs = run_harness(ctx, binp, ["c06", ctx.seed, n, nrates], timeout=1500)
     pts = oracle(ctx, obs)
+    if ctx.n_pts < 2 * n or ctx.n_rates < max(1, nrates // 2):
+        ctx.violation("S5", f"too few evaluated inputs: {ctx.n_pts} frequency pairs (of {3 * n}) and {ctx.n_rates} rate grids (of {nrates}) — "
+                      "the generator could not build its setups on this tree", {"kind": "too_few_inputs"},
+                      {"pairs": ctx.n_pts, "grids": ctx.n_rates}, found_input=False)
     for o in pts[:4]:
         ctx.sample({"setup": describe(o), "jsa": list(map(f64_of_hex, o["v"]["jsa"])),
                     "jsa_exchanged": list(map(f64_of_hex, o["v_sw"]["jsa"]))})
@@ -242,12 +276,12 @@ def run(ctx):
         correspondence(ctx, pts, 8 if quick else 32, 2 if quick else 3)
     else:
         ctx.note("correspondence cases skipped: generated model did not compile")
-    if (not proved or ctx.case_failures) and not any(v["found_input"] and not v["sig"].get("explained_by_counts_correction") for v in ctx.violations):
+    if (not proved or ctx.case_failures) and not any(v["found_input"] and not v["sig"].get("ratio_is_group_index_ratio") for v in ctx.violations):
         ctx.log("S5 deep search for a failing input (proof obligations / correspondence are broken)")
         for k in range(2 if quick else 6):
             obs2 = run_harness(ctx, binp, ["c06", ctx.seed + 1000 + k, 60, 6], timeout=1500)
             oracle(ctx, obs2)
-            if any(v["found_input"] and not v["sig"].get("explained_by_counts_correction") for v in ctx.violations):
+            if any(v["found_input"] and not v["sig"].get("ratio_is_group_index_ratio") for v in ctx.violations):
                 break
     ctx.cov["rule"] = ("random setups: crystal/type from 13 (poled: 7, angle-tuned: 6) classes, L 0.5-20 mm log-uniform, pump 380-800 nm, signal "
                        "non-degenerate by up to 25 % (1/8 exactly degenerate), external signal angle 0.2-4 deg at random azimuth (1/6 collinear), "
@@ -259,8 +293,10 @@ def run(ctx):
         "jsa exchange, every quadrature, magnitude and phase": "proved (generated model); 1e-6 float agreement measured",
         "normalisation / pump envelope / support box symmetric": "proved",
         "JSI and grid sums invariant": "proved",
-        "coincidence rate invariant": "proved_partial (needs symmetric counts correction; REFUTED in general: Findings/C06_counts_correction.v)",
-        "idler singles spectrum = exchanged signal singles spectrum": "proved (structural; shape of the code pinned by the generator)",
+        "coincidence rate invariant": "proved_partial (needs symmetric counts correction; REFUTED in general: Findings/C06_counts_correction.v; "
+                                      "exact law rate_exchanged * ng_s = rate * ng_i proved and checked against the dumped group indices)",
+        "idler singles spectrum = exchanged signal singles spectrum": "definitional (the code computes it through the exchanged setup; shape pinned by the generator, transposition checked on Rust outputs)",
+        "cell area dw2 = dws * dwi from the generated division widths of the two axes; transposed grid": "proved (Steps2D::division_widths pinned; widths recomputed from the grid end points in S5)",
         "idler singles rate = exchanged signal singles rate": "proved_partial (same correction-factor defect)",
         "exchange tie (Rust scalars of the exchanged setup = pm_swap)": "validated_only (bitwise, every run)"}
     return finish(ctx, assumptions=[
